@@ -36,3 +36,56 @@ Qed.
 Theorem hrun_last_observation s h :
   hrun s (h ++ [HObsListing]) = hrun s h ++ [answer_after s h].
 Proof. rewrite hrun_app. simpl. reflexivity. Qed.
+
+(* ------------------------------------------------------------------ the memoised implementation *)
+(* The implementation memoises start times (Gen.Flags: which methods carry lru_cache).  Every history command passes through
+   mutation points of the source; Gen.Flags records, for each, whether it calls the invalidation helper, and whether that helper
+   clears both memo tables.  With those flags true (checked by computation on the GENERATED table) every history is one in
+   which each mutation empties the memo table, so the generic memo theorem applies: memoised answers = current values. *)
+From Gen Require Flags.
+From Coq Require Import String.
+
+Definition helper_clears_all : bool :=
+  (negb Flags.relation_link_memoised || Flags.invalidate_clears_relation_link)
+  && (negb Flags.multi_relation_link_memoised || Flags.invalidate_clears_multi_relation_link).
+
+Definition cmd_invalidates (c : hcmd) : bool :=
+  helper_clears_all &&
+  match c with
+  | HAdd _ _ | HDangling _ _ | HSub _ _ | HGrow _ _ | HMods | HFlatten => Flags.mutation_point_invalidates Flags.MP_add_to_graph
+  | HSetReg _ _ => Flags.mutation_point_invalidates Flags.MP_set_registry
+  | HGlobal _ _ _ _ => Flags.mutation_point_invalidates Flags.MP_override_enter && Flags.mutation_point_invalidates Flags.MP_override_leave
+  | HObsListing | HObsOther => Flags.mutation_point_invalidates Flags.MP_handoff     (* listing hands relation links down *)
+  | HObsDuration => true
+  end.
+
+(* the memoised quantity: start time of the operation at a path, in the current circuit under the current settings *)
+Fixpoint gstart (g : list (path * (Z * Z))) (p : path) : Z :=
+  match g with [] => 0 | (a, se) :: t => if path_eqb a p then fst se else gstart t p end.
+Definition start_truth (s : hstate) (p : path) : Z :=
+  match hs_nodes s with Some ns => gstart (gtimes (hs_env s) ns) p | None => 0 end.
+
+Lemma path_eqb_spec a b : path_eqb a b = true <-> a = b.
+Proof.
+  revert b. induction a as [|x a IH]; intros [|y b]; simpl; split; try congruence; try reflexivity.
+  - rewrite andb_true_iff, Nat.eqb_eq, IH. intros [-> ->]. reflexivity.
+  - intros E. inversion E; subst. rewrite andb_true_iff, Nat.eqb_eq, IH. auto.
+Qed.
+
+(* a history with queries for start times after every command *)
+Definition to_steps (h : list (hcmd * list path)) : list (step (W := hstate) (K := path)) :=
+  flat_map (fun cq => Mutate (fun s => hstep s (fst cq)) (cmd_invalidates (fst cq)) :: map (fun p => Query p) (snd cq)) h.
+
+Lemma flags_all_invalidate : forall c, cmd_invalidates c = true.
+Proof. intros c. destruct c; vm_compute; reflexivity. Qed.
+
+Lemma to_steps_all_invalidate h : all_invalidate (to_steps h) = true.
+Proof.
+  unfold to_steps, all_invalidate. rewrite forallb_forall. intros s Hs. apply in_flat_map in Hs.
+  destruct Hs as [[c qs] [_ Hin]]. simpl in Hin. destruct Hin as [<- | Hin]; [apply flags_all_invalidate|].
+  apply in_map_iff in Hin. destruct Hin as [p [<- _]]. reflexivity.
+Qed.
+
+Theorem memoised_start_times_are_current s h :
+  run path_eqb start_truth s [] (to_steps h) = run_plain start_truth s (to_steps h).
+Proof. apply memo_sound; [apply path_eqb_spec | apply coherent_nil | apply to_steps_all_invalidate]. Qed.
